@@ -101,7 +101,8 @@ def key_of(verdict, o, arg):
     if verdict == "class":
         return "class:%s:arg%d:acc%d:%s" % (c["sc"], arg, c["acc"], "+".join(c["fl"]) or "none")
     mem = ps.get("mem", {}).get("b", "static")
-    place = "" if mem == "static" else ":@%s%s" % (mem, "+gap" if ps["mem"].get("gap") else "")
+    place = "" if mem == "static" else ":@%s%s%s" % (mem, "+gap" if ps["mem"].get("gap") else "",
+                                                     "" if ps["mem"].get("prot", "rw") == "rw" else "+" + ps["mem"]["prot"])
     # a name class of the skeleton (" (deleted)" suffix, leading "..") in the name or in the directory it starts from
     special = lambda comps: any(" " in x or (x.startswith("..") and len(x) > 2) for x in comps)
     where = list(ps["comps"]) + list(ps.get("pdir", []))
